@@ -62,3 +62,34 @@ func init() {
 		return fmt.Sprintf("ok swept=%d", hi-lo)
 	}
 }
+
+func init() {
+	// sweep2 <n> <lo> <hi> <i1> <i2>: the real bounded draw on every raw word in [lo,hi), tallying only two alternatives
+	// (for bounds too large for a counter per alternative)  ->  ok c1=<n> c2=<n> rejected=<n> oor=<n>
+	families["sweep2"] = func(t *toks) string {
+		n := uint32(t.u64())
+		lo := t.u64()
+		hi := t.u64()
+		i1 := uint32(t.u64())
+		i2 := uint32(t.u64())
+		var c1, c2, rej, oor uint64
+		r := &sweepReader{}
+		rand.Reader = r
+		for v := lo; v < hi; v++ {
+			r.v = uint32(v)
+			r.reads = 0
+			i := spg.VerifDraw(n)
+			switch {
+			case r.reads > 1:
+				rej++
+			case i >= n:
+				oor++
+			case i == i1:
+				c1++
+			case i == i2:
+				c2++
+			}
+		}
+		return fmt.Sprintf("ok c1=%d c2=%d rejected=%d oor=%d", c1, c2, rej, oor)
+	}
+}
